@@ -1,0 +1,36 @@
+// SPDX-FileCopyrightText: 2026 The Pion community <https://pion.ly>
+// SPDX-License-Identifier: MIT
+
+//go:build verif
+
+package report
+
+// VerifSizes returns the number of streams held and the total length of their bitmaps
+// (verification harness only).
+func (r *ReceiverInterceptor) VerifSizes() map[string]int {
+	streams, words := 0, 0
+	r.streams.Range(func(_, v any) bool {
+		streams++
+		if s, ok := v.(*receiverStream); ok {
+			s.m.Lock()
+			words += len(s.packets)
+			s.m.Unlock()
+		}
+
+		return true
+	})
+
+	return map[string]int{"streams": streams, "words": words}
+}
+
+// VerifSizes returns the number of streams held (verification harness only).
+func (s *SenderInterceptor) VerifSizes() map[string]int {
+	streams := 0
+	s.streams.Range(func(_, _ any) bool {
+		streams++
+
+		return true
+	})
+
+	return map[string]int{"streams": streams}
+}
